@@ -2,15 +2,19 @@
 import ast, contextlib, io, json, math, os, re, subprocess, sys, time
 import common, extract
 
-LEAN_MODULE = "ESRVerif.Props.C12"
+LEAN_MODULE = ["ESRVerif.Props.C12", "ESRVerif.Props.C12c"]
 LEVEL = "proof"
 LEVEL_TEXT = ("Lean proof for every expression tree (unbounded depth) over a hand model of ESRPrinter, a Lean model of the "
               "Python expression grammar and the two symbol tables regenerated from source; the real-number laws are proved "
               "for R with Mathlib (Real.rpow, zpow, Real.sqrt/exp/log/sin, abs), so the round trip is a theorem about real "
               "values with no abstract law left, and it is stated on the printed STRING (tokenizer inverse of render proved); "
-              "model tied to the code by string-exact correspondence, parser tied to CPython's ast.parse")
-TECHNIQUE = "Lean 4 theorems + translator (symbol tables) + correspondence (printer strings, parser ASTs) + numeric round-trip oracle"
-RULE = ("one case = one distinct evaluated sympy expression (keyed by its srepr) built under x>0, a0..a2 real from ESR's vocabulary: "
+              "model tied to the code by string-exact correspondence, parser tied to CPython's ast.parse; purity of the printer OBJECT: "
+              "decide over the regenerated table of state cells of custom_printer.py + induction over histories of completed and interrupted prints, "
+              "tied by a history search with genuine TimeoutExceptions at every statement site")
+TECHNIQUE = ("Lean 4 theorems + translator (symbol tables, printer state cells) + correspondence (printer strings, parser ASTs, print histories with "
+             "injected time-outs) + numeric round-trip oracle")
+RULE = ("[histories: a sample of the expressions driven through print/interrupted-print histories is also counted, keyed history:<srepr>] "
+        "one case = one distinct evaluated sympy expression (keyed by its srepr) built under x>0, a0..a2 real from ESR's vocabulary: "
         "all single-operator expressions over a 15-atom alphabet, a deterministic slice of the two-operator ones, and random trees "
         "of depth <= 6 (thorough: all unary-over-single-operator, wider binary slice, more random); non-trivial = contains an "
         "operator and is finite at >= 1 of the generic points")
@@ -23,7 +27,16 @@ EXPLANATION = ("Lean: (0) tokenize(render toks) = toks for every token list with
                "power (and, for fitting, log) arguments are non-negative. Tie: ESRPrinter().doprint == model print as strings, "
                "Lean parse == CPython ast.parse on every printed string, tables extracted from source. Oracle: the real string "
                "parsed by initial_sympify's table, generator.string_to_expr and Likelihood.run_sympify, compared numerically with "
-               "the original expression.")
+               "the original expression. Purity (Props/C12c): the translator lists every state cell of custom_printer.py (instance attributes stored or "
+               "mutated in place by any method, also through aliases; class attributes; module globals; mutable defaults; memo decorators; function "
+               "attributes) and of sympy's Printer base class; printer_has_no_print_time_state decides that none is written while printing except "
+               "_print_level, which Printer._print restores in a finally; print_history_independent: a printer whose state is the content of the "
+               "print-time cells returns, after any history of completed and interrupted prints, what a fresh one returns; stale_cache_needed: with a "
+               "fill-in-place cache cell a 2-step history prints a truncated sum. Tie: worker c12_history keeps ONE ESRPrinter per shard, prints "
+               "expressions with nested sums/products/powers, their sub-/super-expressions and -1/-2 variants, and for every distinct (method, line) of "
+               "custom_printer.py reached delivers SIGALRM inside simplifier.time_limit at that line event (real TimeoutException, caught as the "
+               "simplifier stage does), then prints again with the same object: every completed print must equal the fresh-state string, which must "
+               "equal the Lean print and read back numerically.")
 TRUSTED = ["hand model ESRVerif/Model/Printer.lean of ESRPrinter (tied by string-exact correspondence on every generated expression)",
            "Lean tokenizer vs Python's tokenizer: tokenize(render toks) = toks is PROVED (Proofs/PrinterLex.lean: tokenize_render, for tokens whose "
            "names are identifiers, Float texts d+.d*[e[+-]d+], and no two adjacent alphanumeric tokens / '*' before '*'); that this Lean tokenizer "
@@ -34,7 +47,10 @@ TRUSTED = ["hand model ESRVerif/Model/Printer.lean of ESRPrinter (tied by string
            "(instance realLike: Real.rpow, zpow, Real.sqrt/exp/log/sin, |.|, total division x/0 = 0; lemmas mul_inv, zpow_neg, Real.rpow_neg (0<=x, "
            "shown necessary by rpow_neg_needs_nonneg), abs_of_nonneg, Real.sqrt_eq_rpow); what stays trusted is that sympy's Pow/Abs/log/sqrt on "
            "admissible arguments denote these Mathlib functions (numeric oracle)"]
-ASSUMPTIONS = ["string-level theorems also assume `lexical e`: symbol names are identifiers ([A-Za-z_][A-Za-z0-9_]*) and Float texts have the shape "
+ASSUMPTIONS = ["history independence: the printer's state is what the cell table lists (syntactic stores/mutators on self.X, aliases of them, class, module, "
+               "default, memo, funcattr cells; setattr/__dict__/vars/globals/exec are refused); state hidden inside sympy objects or reached through an "
+               "unknown callee is covered by the history search only; interruptions are delivered at line events of custom_printer.py frames (not inside sympy)",
+               "string-level theorems also assume `lexical e`: symbol names are identifiers ([A-Za-z_][A-Za-z0-9_]*) and Float texts have the shape "
                "d+.d*[(e|E)[+-]d+] (what sympy prints); the check only admits such expressions (symbols x, a0..a2; floats matching PLAIN_FLOAT)",
                "theorems assume `canonical e` (sympy's evaluated form: flattened sums, one leading numeric coefficient, integer powers distributed) "
                "and `Adm` (symbols are not table functions; bases of non-integer powers >= 0; for the fitting table also log arguments >= 0); "
@@ -46,7 +62,12 @@ ASSUMPTIONS = ["string-level theorems also assume `lexical e`: symbol names are 
                "round trip compared at generic real points where the original expression is finite"]
 # tables whose committed version may stand in as a hand-written model when the translator cannot read the source;
 # value = the correspondence that then ties it to the code (common.prove / common.decide)
-FALLBACK = {'SymTab': 'every generated expression printed by the real printer and read back through the real sympify with BOTH real symbol tables (structural and numeric round trip)'}
+FALLBACK = {'SymTab': 'every generated expression printed by the real printer and read back through the real sympify with BOTH real symbol tables (structural and numeric round trip)',
+            'PrinterState': 'history correspondence: long-lived ESRPrinter objects (and the module-level sstr) driven through sequences of prints and of prints '
+                            'interrupted by a genuine simplifier.TimeoutException at every (method, line) site of custom_printer.py reached; every completed print '
+                            'equals the string of a fresh printer in a fresh process state, equals the Lean model print, and reads back numerically under both tables'}
+# PrinterState: when a print-time cell appears the translator refuses (ExtractError); the committed table (no such cell) then stands for the
+# stateless model and the history search decides: a failing history -> VIOLATION with the history as replay; none -> NOTE, exit 0
 MODELLED = ["ESRPrinter.parenthesize", "ESRPrinter.stringify", "ESRPrinter._print_Add", "ESRPrinter._print_Mul", "ESRPrinter._print_Pow",
             "ESRPrinter._print_Function", "ESRPrinter._print_Integer", "ESRPrinter._print_Rational", "ESRPrinter._print_Float",
             "ESRPrinter._print_Symbol"]
@@ -514,6 +535,7 @@ def run(ctx):
     pts_seed = ctx.rng.randrange(1 << 30)
     items = [("tree", t, pts_seed, (k % 5 == 0)) for k, t in enumerate(trees)]
     items += [("quirk", q, pts_seed, False) for q in quirk_cases()]
+    hist = start_history(ctx, deep, pts_seed)
     nproc = min(16, os.cpu_count() or 4)
     with mp.get_context("fork").Pool(nproc, initializer=_pool_init) as pool:
         results = pool.map(process, items, chunksize=64)
@@ -607,12 +629,15 @@ def run(ctx):
     sample = [r for r in todo if not r["atom"] and r["enc"] is not None][:: max(1, len(todo) // (1500 if deep else 400))]
     fresh_bad = fresh_process_check(ctx, sample)
 
+    # ---- (iv) purity under HISTORIES: one long-lived printer, prints and interrupted prints (worker c12_history)
+    hist_ok = finish_history(ctx, hist)
+
     # ---- anchored-line coverage on a sample, in-process
     cov = line_coverage(ctx, [r["enc"] for r in todo[:: max(1, len(todo) // 600)] if r["enc"] is not None] + quirk_cases())
 
-    ctx.extra["corr_obligations"] = 6
+    ctx.extra["corr_obligations"] = 7
     ctx.extra["corr_discharged"] = int(bad["print"] == 0) + int(bad["tok"] == 0) + int(bad["parse"] == 0) + int(bad["intended"] == 0) + int(bad["facts"] == 0) + \
-        int(bad["pure"] == 0 and fresh_bad == 0 and bad["stdout"] == 0)
+        int(bad["pure"] == 0 and fresh_bad == 0 and bad["stdout"] == 0) + int(hist_ok)
     ctx.extra["correspondence"] = dict(expressions=len(todo), enumerated_trees=n_enum, random_trees=n_rand, mismatch=bad,
                                        fresh_process_sample=len(sample), fresh_process_mismatch=fresh_bad)
     ctx.extra["input_distribution"] = dict(skipped_out_of_scope=skips, duplicates=len(results) - len(todo) - sum(skips.values()),
@@ -624,6 +649,177 @@ def run(ctx):
     ctx.extra["exhaustive"] = False
     ctx.extra["bounds"] = dict(tree_height_random=6, atoms=15, points=NPOINTS, deep=deep)
     ctx.extra["timing_s"] = dict(python=round(t_py, 1), model=round(t_model, 1))
+
+
+# ---- purity under histories ----------------------------------------------------------------------
+
+HIST_WORKER = os.path.join(os.path.dirname(os.path.dirname(os.path.abspath(__file__))), "workers", "c12_history.py")
+
+
+def history_bases(ctx, n):
+    """base expressions for the history search: sums / products / powers nested a few levels (drawn from ctx.rng), plus
+    expanded products like the ones the simplifier's expand step prints"""
+    g = G(); sp = g["sympy"]
+    x, a = g["x"], g["a"]
+    fixed = []
+    big = sp.expand((a[0] + x) * (a[1] + x ** 2))
+    for f in (lambda: big, lambda: big ** 2, lambda: x / big, lambda: sp.sin(big), lambda: sp.expand((x + a[0]) ** 3),
+              lambda: sp.expand((a[0] * x - a[1]) * (x ** 2 - a[2] / x)), lambda: sp.exp(1 / x - 1) + 1 / x ** 2,
+              lambda: sp.sqrt(x) * a[0] - 1 / (a[1] + x), lambda: sp.Abs(x) ** (a[0] - 1) + x ** (-2) - a[1] * (x + a[2]) ** 2,
+              lambda: sp.log(x) / (a[0] + x) ** 2 - sp.Rational(2, 3) * x * (a[1] - x) ** (-3)):
+        try:
+            fixed.append(sp.sympify(f()))
+        except Exception:
+            pass
+    out, seen = [], set()
+    at = atoms()
+
+    def admit(e):
+        try:
+            if e.has(sp.zoo, sp.nan, sp.oo, -sp.oo, sp.I) or not e.has(sp.Add) or not (e.has(sp.Mul) or e.has(sp.Pow)):
+                return
+            if not (4 <= e.count_ops() <= 40):
+                return
+            if any(n_.is_Rational and (abs(n_.p) > 10**6 or n_.q > 10**6) for n_ in e.atoms(sp.Number)):
+                return
+            serialise(e)
+            t = enc(e)
+            k = sp.srepr(e)
+            if k in seen or dec(t) != e or sp.srepr(dec(t)) != k:
+                return
+            seen.add(k)
+            out.append(t)
+        except (OutOfScope, ZeroDivisionError, ValueError, TypeError, OverflowError, RecursionError):
+            return
+    for e in fixed:
+        admit(e)
+    tries = 0
+    while len(out) < n and tries < 40 * n:
+        tries += 1
+        try:
+            e = sp.sympify(build(random_tree(ctx.rng, ctx.rng.choice((4, 4, 5, 5, 6))), at))
+        except Exception:
+            continue
+        admit(e)
+    return out
+
+
+def start_history(ctx, deep, pts_seed):
+    try:
+        nsh = 12 if deep else 8
+        bases = history_bases(ctx, 480 if deep else 96)
+        procs = []
+        for k in range(nsh):
+            inp = os.path.join(ctx.tmp, "hist_in_%d.json" % k)
+            outp = os.path.join(ctx.tmp, "hist_out_%d.json" % k)
+            json.dump(dict(mode="hist", seed=ctx.rng.randrange(1 << 30), bases=bases[k::nsh], deep=bool(deep), pts_seed=pts_seed,
+                           budget_s=900 if deep else 120), open(inp, "w"))
+            p = subprocess.Popen([common.PY, HIST_WORKER, inp, outp], env=ctx.env(), cwd=ctx.tmp, stdout=subprocess.PIPE, stderr=subprocess.PIPE, text=True)
+            procs.append((p, outp))
+        return dict(procs=procs, nbases=len(bases))
+    except Exception as ex:
+        return dict(error="%s: %s" % (type(ex).__name__, ex), procs=[])
+
+
+def _describe_ops(ops, srepr, strings=None):
+    out = []
+    for k, op in enumerate(ops):
+        if op[0] == "new":
+            d = "P = ESRPrinter()"
+        elif op[0] == "p":
+            d = "P.doprint(%s)" % srepr[op[1]]
+        elif op[0] == "s":
+            d = "sstr(%s)" % srepr[op[1]]
+        else:
+            d = "%s(%s) INTERRUPTED by simplifier.TimeoutException at line event %d = %s:%s" % ("P.doprint" if op[0] == "i" else "sstr", srepr[op[1]], op[2], op[3], op[4])
+        if strings is not None and strings[k] is not None:
+            d += "  ->  %r" % strings[k]
+        out.append(d)
+    return out
+
+
+def finish_history(ctx, hist):
+    """collect the shards; -> True iff the history correspondence is clean"""
+    ok = True
+    if hist.get("error"):
+        ctx.disagree("corr:print-history", "history search could not start: %s" % hist["error"])
+        return False
+    tot = dict(bases=hist["nbases"], bases_done=0, expressions=0, interruptions=0, timeouts=0, completed_under_interruption=0, completed_prints_compared=0,
+               oracle_roundtrips=0, failing_histories=0, shards=len(hist["procs"]), stopped_on_budget=0)
+    sites = set()
+    lines, refs, wall = [], [], 0.0
+    for p, outp in hist["procs"]:
+        try:
+            so, se = p.communicate(timeout=3000)
+        except subprocess.TimeoutExpired:
+            p.kill()
+            ctx.disagree("corr:print-history", "history worker timed out")
+            ok = False
+            continue
+        if p.returncode != 0 or not os.path.exists(outp):
+            ctx.disagree("corr:print-history", "history worker failed: %s" % (se or "")[-400:])
+            ok = False
+            continue
+        r = json.load(open(outp))
+        wall = max(wall, r["wall_s"])
+        for k_ in ("bases_done", "interruptions", "timeouts", "completed_under_interruption", "oracle_roundtrips"):
+            tot[k_] += r[k_]
+        tot["expressions"] += len(r["exprs"])
+        tot["completed_prints_compared"] += r["checks"] + r["completed_under_interruption"]
+        tot["stopped_on_budget"] += int(bool(r["stopped_on_budget"]))
+        sites.update(r["sites"])
+        lines += r["lines"]; refs += list(zip(r["srepr"], r["ref"]))
+        for f in r["ref_fail"]:
+            i = f["i"]
+            if f.get("table"):
+                ctx.fail("roundtrip:%s:%s" % (f["table"].split(":")[0], r["ref"][i]), "%s (expression %s)" % (f["what"], r["srepr"][i]),
+                         dict(kind="expr", srepr=r["srepr"][i], tree=r["exprs"][i], printed=r["ref"][i], table=f["table"]))
+            else:
+                ok = False
+                ctx.fail("impure:%s" % r["srepr"][i][:200], "%s: %s" % (r["srepr"][i], f["what"]), dict(kind="expr", srepr=r["srepr"][i], tree=r["exprs"][i]))
+        for f in r["failures"]:
+            ok = False
+            tot["failing_histories"] += 1
+            used = sorted(set(op[1] for op in f["ops"] if op[0] != "new"))
+            remap = {i: k for k, i in enumerate(used)}
+            ops = [[op[0]] if op[0] == "new" else [op[0], remap[op[1]]] + list(op[2:]) for op in f["ops"]]
+            sre = [r["srepr"][i] for i in used]
+            site = f.get("last_interrupt")
+            what = ("history-dependent print: after %d operations on one long-lived ESRPrinter (last interruption: TimeoutException at %s) "
+                    "the expression %s printed as %r, a fresh printer gives %r%s" % (
+                        len(ops) - 1, ("%s:%s, line event %d of printing %s" % (site[3], site[4], site[2], r["srepr"][site[1]])) if site else "none",
+                        r["srepr"][f["expr"]], f["got"], f["want"], "" if f.get("reproduced") else " (not reproduced by a shorter history)"))
+            if len(ops) <= 12:
+                what += "; history: " + " ; ".join(_describe_ops(ops, sre))
+            ctx.fail("history:%s" % r["srepr"][f["expr"]][:200], what,
+                     dict(kind="history", exprs=[r["exprs"][i] for i in used], srepr=sre, ops=ops, got=f["got"], fresh=f["want"],
+                          site=dict(method=site[3], line=site[4], line_event=site[2], while_printing=r["srepr"][site[1]]) if site else None))
+    # the Lean model prints the same strings (so a history-dependent string is also a model/code disagreement)
+    nbad = 0
+    if lines:
+        out = common.model(["c12 " + ln for ln in lines])
+        for (sre, ref), o in zip(refs, out):
+            ms = o.split("\t")[0]
+            if ms != ref:
+                nbad += 1
+                if nbad <= 3:
+                    ctx.disagree("corr:print-history", "%s: fresh printer %r, Lean model %r" % (sre[:200], ref, ms))
+    if tot["failing_histories"]:
+        ctx.disagree("corr:print-history", "%d histories end in a print that differs from the fresh printer's string and from the Lean model's print" % tot["failing_histories"])
+    if tot["interruptions"] == 0 or tot["timeouts"] == 0:
+        ok = False
+        ctx.disagree("corr:print-history", "no interrupted print was exercised (%r)" % tot)
+    tot["model_mismatch"] = nbad
+    tot["distinct_sites_interrupted"] = len(sites)
+    tot["sites_by_method"] = {}
+    for s_ in sites:
+        m_ = s_.split(":")[0]
+        tot["sites_by_method"][m_] = tot["sites_by_method"].get(m_, 0) + 1
+    tot["wall_s_max_shard"] = wall
+    ctx.extra["history_search"] = tot
+    for sre, ref in refs[:: max(1, len(refs) // 40)]:
+        ctx.case("history:" + sre, nontrivial=True)
+    return ok and nbad == 0
 
 
 FEATURES = [(n, re.compile(p)) for n, p in [
@@ -705,8 +901,34 @@ def line_coverage(ctx, encs):
     return report
 
 
+def replay_history(ctx, rp):
+    inp = os.path.join(ctx.tmp, "hist_replay_in.json")
+    outp = os.path.join(ctx.tmp, "hist_replay_out.json")
+    json.dump(dict(mode="replay", ops=rp["ops"], exprs=rp["exprs"]), open(inp, "w"))
+    p = subprocess.run([common.PY, HIST_WORKER, inp, outp], env=ctx.env(), cwd=ctx.tmp, capture_output=True, text=True)
+    if p.returncode != 0:
+        print("history replay worker failed:", p.stderr[-400:])
+        return False
+    r = json.load(open(outp))
+    for d in _describe_ops(rp["ops"], rp["srepr"], r["strings"]):
+        print("  " + d)
+    print("last print :", repr(r["last"]))
+    print("fresh print:", repr(r["fresh"]))
+    ok = r["last"] == r["fresh"]
+    g = G_tables()
+    e = dec(rp["exprs"][rp["ops"][-1][1]])
+    if r["last"] is not None:
+        fails, _, _ = oracle(e, r["last"], points(1), True)
+        for table, what in fails:
+            print("FAILS [%s] %s" % (table, what))
+            ok = False
+    return ok
+
+
 def replay(ctx, data):
     rp = data["replay"]
+    if rp.get("kind") == "history":
+        return replay_history(ctx, rp)
     g = G_tables(); sp = g["sympy"]
     e = dec(rp["tree"]) if rp.get("tree") else sp.sympify(rp["srepr"], locals={})
     with contextlib.redirect_stdout(io.StringIO()):
